@@ -196,24 +196,32 @@ def _rows_canon(rows: Any) -> Any:
     return [tuple(_canon(v) for v in r) for r in rows]
 
 
-_posts = {"n": 0}
+_posts = {"n": 0, "transport_retries": 0}
 
 
 def _count_query_posts() -> None:
-    """Count the connector's HTTP attempts at query-request: more than one attempt for one execute() is a transport-level
-    retry of the connector (the statement may then have been executed twice by the server), not an answer of the fake."""
-    from snowflake.connector.network import SnowflakeRestful
+    """Watch the connector's HTTP attempts at query-request. An attempt that ends in a transport failure (time-out, reset
+    connection - not an HTTP status answered by the server) is re-sent by the connector, and the server may then have
+    executed the statement twice: that is the connector's retry on a loaded machine, not an answer of the fake."""
+    from snowflake.connector.errors import Error as SfError
+    from snowflake.connector.network import RetryRequest, SnowflakeRestful
 
     if getattr(SnowflakeRestful, "_fsverif_counted", False):
         return
-    orig = SnowflakeRestful._request_exec_wrapper
+    orig = SnowflakeRestful._request_exec
 
     def wrapper(self: Any, session: Any, method: str, full_url: str, *a: Any, **k: Any) -> Any:
-        if "query-request" in full_url:
+        q = "query-request" in full_url
+        if q:
             _posts["n"] += 1
-        return orig(self, session, method, full_url, *a, **k)
+        try:
+            return orig(self, session, method, full_url, *a, **k)
+        except RetryRequest as rr:
+            if q and not (rr.args and isinstance(rr.args[0], SfError)):
+                _posts["transport_retries"] += 1
+            raise
 
-    SnowflakeRestful._request_exec_wrapper = wrapper
+    SnowflakeRestful._request_exec = wrapper
     SnowflakeRestful._fsverif_counted = True
 
 
@@ -221,15 +229,15 @@ def _run_remote(sql: str) -> dict:
     _count_query_posts()
     cur = _state["http"].cursor()
     out: dict[str, Any] = {}
-    n0 = _posts["n"]
+    n0 = _posts["transport_retries"]
     try:
         cur.execute(sql)
     except Exception as e:  # noqa: BLE001
         out["ok"] = False
         out["exc"] = core.exc_info(e)
-        out["retried"] = _posts["n"] - n0 > 1
+        out["retried"] = _posts["transport_retries"] > n0
         return out
-    out["retried"] = _posts["n"] - n0 > 1
+    out["retried"] = _posts["transport_retries"] > n0
     out["ok"] = True
     out["rowcount"] = cur.rowcount
     try:
